@@ -42,6 +42,7 @@ RULE = ("(a) pairs of affine shape expressions c0 + c1*n + c2*m (+ c3*k) with "
         "equal NumPy's each time.  non-trivial: (a) forms differ "
         "syntactically; (b,c) >= 2 distinct symbolic axes; distinct by case")
 RULE += '  Round-4 additions to the must-be-refused operations: matrix products whose contracted axes are two different forms, or a symbolic form against the static 1; calls of a FunctionDefinition with an argument whose axis is another form, or that has one axis more or less than the parameter.'
+RULE += "  Round-5 addition: 36 programs x[::k] (k = 2, 3, 4) along a symbolic axis of four layouts, one kernel each, run at every n in 0..7: shape and values must be NumPy's."
 ASSUMPTIONS = [
     "input values for every size are generated from a fixed integer formula "
     "of the indices (exact arithmetic: results are compared bit for bit "
@@ -787,10 +788,91 @@ def run_shard(shard: int, nshards: int, seed: int, tier: str) -> ShardResult:
             res.fail(f, {"program": desc})
 
     hyp_run(sym_programs(), prog_body, seed + 1, pl["programs"])
+    for j, desc in enumerate(strided_slice_cases()):
+        if j % nshards != shard:
+            continue
+        res.evaluations += 1
+        res.count("strided_symbolic_slices")
+        f = strided_slice_oracle(desc)
+        res.nontrivial.add(spec_hash(desc))
+        if f is not None:
+            res.fail(f, {"strided": desc})
     return res
 
 
+def strided_slice_cases():
+    """x[::k] along a symbolic axis (the one kind of slice pytato lowers
+    there): the length ceil(n/k) is no affine form, so these stand apart from
+    the grammar above"""
+    for k in (2, 3, 4):
+        for layout in ("n", "n2", "2n", "nm"):
+            for post in ("mul", "addself", "sum"):
+                yield {"k": k, "layout": layout, "post": post}
+
+
+def strided_slice_oracle(desc) -> Failure | None:
+    """one kernel, every size 0..7: shape and values must be NumPy's"""
+    import pytato as pt
+    from pvf.cexec import HarnessError, generate_and_compile
+    with warnings.catch_warnings():
+        warnings.simplefilter("ignore")
+        n = pt.make_size_param("n")
+        m = pt.make_size_param("m")
+        k = desc["k"]
+        shp = {"n": (n,), "n2": (n, 2), "2n": (2, n), "nm": (n, m)}[
+            desc["layout"]]
+        ax = 1 if desc["layout"] == "2n" else 0
+        idx = (slice(None),) * ax + (slice(None, None, k),)
+        try:
+            x = pt.make_placeholder("x", shp, np.float64)
+            y = x[idx]
+            y = {"mul": lambda: y * 2, "addself": lambda: y + y,
+                 "sum": lambda: pt.sum(y, axis=ax ^ 1) if len(shp) == 2
+                 else y * 3}[desc["post"]]()
+            knl = generate_and_compile(pt.transform.deduplicate(
+                pt.make_dict_of_named_arrays({"out": y})))
+        except HarnessError:
+            raise
+        except (NotImplementedError, TypeError, ValueError):
+            return None         # (pytato refuses it: nothing to compare)
+        for nv in range(0, 8):
+            for mv in ((1, 3) if desc["layout"] == "nm" else (0,)):
+                cshape = tuple({"n": nv, "m": mv}.get(
+                    {id(n): "n", id(m): "m"}.get(id(s)), s) for s in shp)
+                xv = input_values(cshape, 3)
+                want = xv[idx]
+                want = {"mul": lambda: want * 2, "addself": lambda: want + want,
+                        "sum": lambda: want.sum(axis=ax ^ 1)
+                        if len(shp) == 2 else want * 3}[desc["post"]]()
+                args = {"x": xv, "n": nv}
+                if desc["layout"] == "nm":
+                    args["m"] = mv
+                try:
+                    got = knl(**args)["out"]
+                except HarnessError:
+                    raise
+                except Exception as e:  # noqa: BLE001
+                    return Failure("symbolic-launch-exception",
+                                   f"x[::{k}] ({desc['layout']}) at n={nv}: "
+                                   f"{type(e).__name__}: {str(e)[:200]}",
+                                   "strided")
+                if got.shape != want.shape:
+                    return Failure("symbolic-shape-wrong",
+                                   f"x[::{k}] ({desc['layout']}, "
+                                   f"{desc['post']}) at n={nv}: shape "
+                                   f"{got.shape}, NumPy {want.shape}",
+                                   "strided")
+                if not np.array_equal(got, want):
+                    return Failure("symbolic-output-value",
+                                   f"x[::{k}] ({desc['layout']}, "
+                                   f"{desc['post']}) at n={nv}: values differ",
+                                   "strided")
+    return None
+
+
 def replay(case) -> Failure | None:
+    if "strided" in case:
+        return strided_slice_oracle(case["strided"])
     if "pair" in case:
         f, g, obf, obg = case["pair"]
         return check_pair(tuple(f), tuple(g), obf, obg)
